@@ -201,6 +201,23 @@ func c05Monitor(m *vk.Meta, in mgrIn, out mgrOut) {
 
 func c05Gen(o *vk.Out) mgrIn {
 	r := o.Rng
+	if r.Intn(12) == 0 {
+		// the "seems zk problems" gate in a cluster WITH a cascade replica: the master's own mysync reports it dead (or its
+		// record is gone) while mysqld is fine and every HA replica still replicates; nothing may be filed however long
+		n := 3 + r.Intn(2)
+		in := mgrIn{Master: "h1", Iter: 4 + r.Intn(2), Gap: []int{2, 5, 16}[r.Intn(3)], LockLostAt: -1,
+			Cfg: mgrCfg{Failover: true, Delay: []int{0, 3, 10}[r.Intn(3)], Cooldown: 0, Timeout: 300, MaxAttempts: 3, SemiSync: r.Intn(2) == 0, DisableSSOnMaint: true}}
+		for i := 1; i <= n; i++ {
+			in.Nodes = append(in.Nodes, mgrNode{})
+			if i < n {
+				in.Active = append(in.Active, fmt.Sprintf("h%d", i))
+			}
+		}
+		in.Nodes[n-1].Cascade = true
+		in.Nodes[0].Health = []string{"pingfail", "missing"}[r.Intn(2)]
+		in.MgrHost = 2
+		return in
+	}
 	n := 2 + r.Intn(3)
 	in := mgrIn{Master: "h1", Iter: 2 + r.Intn(4), Gap: []int{1, 2, 5, 16}[r.Intn(4)], LockLostAt: -1,
 		Cfg: mgrCfg{Failover: r.Intn(6) != 0, Delay: []int{0, 3, 10, 30}[r.Intn(4)], Cooldown: []int{0, 600, 3600}[r.Intn(3)], Timeout: 300,
@@ -238,6 +255,12 @@ func c05Gen(o *vk.Out) mgrIn {
 		in.Nodes[0].Health = []string{"fsro", "crash"}[r.Intn(2)]
 	case 5:
 		in.Nodes[0].Health = "pingfail" // reachable for the manager, its own mysync says dead
+	}
+	if in.Nodes[0].Cut && r.Intn(2) == 0 {
+		// unreachable for the manager, its own mysync reports it healthy - and restarted after a crash (the after-crash
+		// failover path must not get in front of the suspicious-master guard)
+		in.Nodes[0].Health = "crash"
+		in.Cfg.ResetupCrashed = true
 	}
 	if r.Intn(8) == 0 {
 		// dead (or unreachable) with the crash flag in its record: only resetup_crashed_hosts lifts the delay and the replication gate
